@@ -1282,3 +1282,66 @@ func ruleJSONPathStateFresh(r *Run) {
 		o.OK("%d root walk(s), each on a freshly built extractor or after a reset", n)
 	}
 }
+
+// ruleRegexpGroupNumbering (PV-PAIR, sibling of the engine's RegexpExtractor rule): the engine
+// exposes submatch i under mapping[i], with i the index into FindStringSubmatch. The parser
+// therefore has to key the mapping by the index of the name in re.SubexpNames() - the same
+// numbering, which counts unnamed groups and the whole match - not by the ordinal of the named
+// group.
+func ruleRegexpGroupNumbering(r *Run) {
+	p := r.P
+	fn := p.Method(logqlPkg, "parser", "parseRegexpLabelParser")
+	o := r.Ob("PV-PAIR", "logql.(*parser).parseRegexpLabelParser numbering", "a named group's label is stored under the group's index in re.SubexpNames(), the numbering FindStringSubmatch uses")
+	if fn == nil {
+		o.Fail("-", "method not found")
+		return
+	}
+	grp := funcGroup(fn)
+	n := 0
+	bad := false
+	for _, g := range grp {
+		loops := rangeIndexLoops(g)
+		allInstrs(g, func(in ssa.Instruction) {
+			mu, ok := in.(*ssa.MapUpdate)
+			if !ok {
+				return
+			}
+			mt, ok := mu.Map.Type().Underlying().(*types.Map)
+			if !ok {
+				return
+			}
+			if b, ok := mt.Key().Underlying().(*types.Basic); !ok || b.Kind() != types.Int || typeKey(mt.Elem()) != "Label" {
+				return
+			}
+			n++
+			var loop *rangeLoop
+			for _, l := range loops {
+				if l.Blocks[mu.Block()] {
+					loop = l
+				}
+			}
+			if loop == nil {
+				bad = true
+				o.Fail(r.pos(mu.Pos()), "the group mapping is not filled in a loop over the group names")
+				return
+			}
+			c, ok := stripTypeOnly(loop.X).(*ssa.Call)
+			if !ok || !callIs(c, "regexp", "(*Regexp).SubexpNames") {
+				bad = true
+				o.Fail(r.pos(mu.Pos()), "the loop ranges over %s, not over re.SubexpNames() itself: positions no longer are submatch indexes", describe(loop.X, 0))
+				return
+			}
+			if stripConv(mu.Key) != ssa.Value(loop.Index) {
+				bad = true
+				o.Fail(r.pos(mu.Pos()), "the label is stored under %s, not under the name's index in re.SubexpNames()", describe(mu.Key, 0))
+			}
+		})
+	}
+	if n == 0 {
+		o.Fail(r.pos(fn.Pos()), "no map[int]Label filled")
+		return
+	}
+	if !bad {
+		o.OK("mapping[i] = name for i, name := range re.SubexpNames()").At(r.pos(fn.Pos()))
+	}
+}
